@@ -1408,6 +1408,7 @@ class Stage:
             ret._placeholders[k_new] = (species, substitute([MX(expr)], subst_from, subst_to)[0], ph_args, ph_kwargs)
 
         ret.states = copy(self.states)
+        ret.qstates = copy(self.qstates)
         ret.controls = copy(self.controls)
         ret.algebraics = copy(self.algebraics)
         ret.parameters = deepcopy(self.parameters)
